@@ -14,7 +14,7 @@ ASSUME Lemma
 \* ---------- (2) page generator
 VARIABLES pg
 PageSpace == [cols : 1..3, rows : 2..4, fill : {"full", "ragged", "sparse"},
-              feature : {"none", "stickout", "tinyline", "title", "headingcol", "bullets", "duplayer", "charlevel", "fineprint", "widetitle", "marginnums",
+              feature : {"none", "stickout", "tinyline", "title", "headingcol", "bullets", "duplayer", "charlevel", "fineprint", "widetitle", "marginnums", "footmark",
                          "scale10", "scale01", "inverted", "offsetbox", "rtl", "spaceonly", "shortlast", "justified", "repeatword", "nestedbullets", "numbered", "itemlist", "nestedlist"}]
 GInit == pg \in PageSpace /\ Init
 GNext == UNCHANGED <<pg, vars>> /\ FALSE
